@@ -171,6 +171,13 @@ def e2e_cases(pid, tier, rng):
         if lay.size <= 5:
             continue
         bss = [Bfocus, Bfocus + 1, 64, 65536]
+        # block sizes tied to where lines END: a line ending exactly on the last byte of a block, the next one starting
+        # on byte 0 of the following block (for the first lines of the file, and the sizes that divide those offsets)
+        for i in range(min(6, len(lay.lines))):
+            e = lay.line_end(i) + 1
+            for dv in (1, 2, 3, 4):
+                if e % dv == 0 and e // dv >= 64:
+                    bss.append(e // dv)
         if pid == "C12" or tier == "thorough":
             bss += [65, 127, 128, 129, 2 * Bfocus, max(64, lay.size - 1), max(64, lay.size), lay.size + 1, 8096, 8097,
                     0xFFFFFF]
@@ -178,8 +185,8 @@ def e2e_cases(pid, tier, rng):
             bss += [max(64, longest - 1), max(64, longest), longest + 1]
         if tier == "quick":
             bss = sorted(set(bss))
-            if len(bss) > 7:
-                bss = sorted(rng.sample(bss, 7) + [65536])
+            if len(bss) > 10:
+                bss = sorted(rng.sample(bss, 10) + [65536])
         conts = ["plain"] + ([rng.choice(CONTAINERS[1:])] if tier == "quick" else CONTAINERS[1:])
         for B in sorted(set(bss)):
             for cont in conts:
@@ -203,6 +210,15 @@ def e2e_cases(pid, tier, rng):
                 case = Case(files, ["--color", "never", "--blocksz", str(B), argv], lay.printed(),
                             note={"blocksz": B, "container": cont, "file": fi}, timeout=60)
                 cases.append((case, lay, B, cont))
+    # boundary family: the first message(s) end exactly on a block end, a multi-block line starts the next block
+    for B in ([64, 100, 128] if tier == "quick" else [64, 65, 100, 128, 200, 256, 1000, 4096, 8096, 9000]):
+        for first in ((1, 2) if B < 8096 else (2, 3)):
+            lay = textgen.boundary_layout(rng, B, first_lines=first)
+            for Bx in sorted({B, B + 1, max(64, B - 1), 2 * B, 65536}):
+                name = "b%d_%d.log" % (B, first)
+                case = Case({name: lay.data}, ["--color", "never", "--blocksz", str(Bx), name], lay.printed(),
+                            note={"blocksz": Bx, "container": "plain", "file": name}, timeout=60)
+                cases.append((case, lay, Bx, "plain"))
     return cases
 
 
